@@ -21,8 +21,28 @@ impl Tier {
     }
 }
 
+/// how a run is evaluated
+#[derive(Serialize, Deserialize, Clone, Debug, Default, PartialEq)]
+pub enum Mode {
+    /// one run, judged against the model and the reference run
+    #[default]
+    Normal,
+    /// the same create / run / drop life is executed six times; process memory must not grow
+    LeakRepeat,
+    /// several runtimes created, run, serviced and dropped in an interleaved history drawn from
+    /// `seed` (production pacing, no controller); the history is executed six times
+    LifeHistory { seed: u64, ops: u32 },
+    /// after the run (or at its drop point) two quiescent full collections must leave exactly
+    /// what they leave after the collector-off run to the same point
+    Completeness,
+    /// the program is run with its size parameter at `n` and at `4n`; peak memory must not scale
+    Bounded { n: i64 },
+}
+
 #[derive(Serialize, Deserialize, Clone, Debug)]
 pub struct RunSpec {
+    #[serde(default)]
+    pub mode: Mode,
     pub label: String,
     pub personality: Personality,
     pub opts: RunOptions,
@@ -111,6 +131,7 @@ fn sampled(rng: &mut Rng, w: &Workload, reference: &RunResult, f: Flavor, label:
         fault_window: window,
     };
     RunSpec {
+        mode: Mode::Normal,
         label: label.to_string(),
         personality,
         opts: RunOptions {
@@ -126,6 +147,7 @@ fn sampled(rng: &mut Rng, w: &Workload, reference: &RunResult, f: Flavor, label:
 fn fixed(personality: Personality, reference: &RunResult, label: &str, selfcheck_every: u32) -> RunSpec {
     let tasks = reference.n_threads.max(1) as u64;
     RunSpec {
+        mode: Mode::Normal,
         label: label.to_string(),
         personality,
         opts: RunOptions {
@@ -190,6 +212,13 @@ pub fn workload(prop: &str, tier: Tier, rng: &mut Rng, index: u64) -> Workload {
             5 => workload::status::generate(rng, true),
             6 => workload::conc::generate(rng, workload::conc::ALL, false),
             _ => workload::gc::generate(rng, true),
+        },
+        "C07" => match index % 6 {
+            0 | 1 => workload::bounded::generate(rng),
+            2 => workload::conc::generate(rng, workload::conc::ALL, false),
+            3 => workload::gc::generate(rng, false),
+            4 => workload::cap::generate(rng),
+            _ => workload::status::generate(rng, true),
         },
         "C08" => workload::cap::generate(rng),
         "C09" => workload::conc::generate(rng, workload::conc::ALL, false),
@@ -356,6 +385,81 @@ pub fn runs(
                 specs.push(sampled(rng, w, reference, f, "sampled"));
             }
         }
+        "C07" => {
+            let n_each = match tier {
+                Tier::Quick => 4,
+                Tier::Thorough => 10,
+            };
+            if w.family == "bounded" {
+                // boundedness under the real pacing heuristic, crossed with slicing and host delay
+                let n = match tier {
+                    Tier::Quick => 150,
+                    Tier::Thorough => 500,
+                };
+                for _ in 0..n_each {
+                    // constant budgets and no stalls: the decision trace (which the harness
+                    // records) then has constant size, so process memory measures the VM alone
+                    let personality = Personality {
+                        budget: Budget::Const(*rng.pick(&[1, 7, 64, 100, 1000])),
+                        stall_pct: 0,
+                        stall_max: 0,
+                        stall_main_only: false,
+                        gc: GcTemplate::Default,
+                        fault_window: u64::MAX,
+                    };
+                    let mut sp = fixed(personality, reference, "bounded-heap-at-n-and-4n", 0);
+                    sp.mode = Mode::Bounded { n };
+                    sp.opts.quarantine = false;
+                    sp.opts.step_cap = 400 * reference.steps.max(1_000);
+                    specs.push(sp);
+                }
+                exhaustive.push(format!("size parameter {n} vs {}", 4 * n));
+            } else {
+                let f = Flavor {
+                    gc_stress: true,
+                    stalls: true,
+                    stall_main_only: false,
+                    selfcheck_every: 0,
+                };
+                // (a) a runtime dropped at an arbitrary instant frees everything
+                for i in 0..n_each * 2 {
+                    let mut sp = sampled(rng, w, reference, f, "life-dropped-at-arbitrary-instant");
+                    sp.mode = Mode::LeakRepeat;
+                    sp.liveness_due = false;
+                    sp.opts.quarantine = false;
+                    sp.personality.fault_window = u64::MAX;
+                    sp.opts.drop_at_step = if i % 4 == 3 {
+                        u64::MAX
+                    } else {
+                        rng.below(reference.steps + reference.steps / 4 + 2)
+                    };
+                    if w.has_tasks && rng.chance(1, 4) {
+                        // a task's host call is never answered, then the runtime is dropped
+                        sp.opts.abandon_thread = 1;
+                    }
+                    specs.push(sp);
+                }
+                for _ in 0..2 {
+                    let mut sp = fixed(base(Budget::Const(100), GcTemplate::Default), reference, "interleaved-lives-of-several-runtimes", 0);
+                    sp.mode = Mode::LifeHistory {
+                        seed: rng.next(),
+                        ops: 40,
+                    };
+                    sp.opts.quarantine = false;
+                    specs.push(sp);
+                }
+                // (b) once faults stop, everything unreachable is reclaimed
+                for _ in 0..n_each {
+                    let mut sp = sampled(rng, w, reference, f, "completeness-after-faults");
+                    sp.mode = Mode::Completeness;
+                    sp.opts.quarantine = false;
+                    if !w.has_tasks && rng.chance(2, 3) {
+                        sp.opts.drop_at_step = rng.below(reference.steps + 1);
+                    }
+                    specs.push(sp);
+                }
+            }
+        }
         "C11" => {
             let f = Flavor {
                 gc_stress: true,
@@ -406,6 +510,8 @@ pub fn n_cells(prop: &str, tier: Tier) -> u64 {
         ("C01", Tier::Thorough) => 192 * 4 + 4000,
         ("C10", Tier::Quick) => 192 + 300,
         ("C10", Tier::Thorough) => 192 * 4 + 3000,
+        ("C07", Tier::Quick) => 240,
+        ("C07", Tier::Thorough) => 2400,
         ("C06", Tier::Quick) => 96,
         ("C06", Tier::Thorough) => 1200,
         (_, Tier::Quick) => 200,
@@ -486,6 +592,17 @@ pub fn required_probes(prop: &str, _tier: Tier) -> &'static [&'static str] {
             "probe_cycle_start_in_string_op",
             "gc_objects_freed",
         ],
+        "C07" => &[
+            "f8_drop_with_thread_marking",
+            "f8_drop_with_thread_sweeping",
+            "f8_drop_mid_string_op",
+            "f8_drop_with_task_parked",
+            "f8_drop_with_messages_queued",
+            "f8_drop_with_tasks_alive",
+            "f9_host_call_abandoned_turn",
+            "f8_life_history_ops",
+            "gc_objects_freed",
+        ],
         "C08" => &["ev_spawn", "f2_defer", "gc_objects_freed", "probe_two_tasks_parked"],
         "C09" => &[
             "ev_spawn",
@@ -529,6 +646,7 @@ pub fn rule(prop: &str) -> String {
     let specific = match prop {
         "C26" | "C06" => "the collector was in its marking or sweeping phase while at least one program instruction executed, and it reclaimed at least one object.",
         "C17" => "a collection phase was active while a resumable string instruction was mid-way, or a run_n_steps call ended while one was in flight.",
+        "C07" => "the runtime was dropped before the program completed, or a completeness / boundedness comparison was made (every C07 run is one of these).",
         "C10" => "execution was cut into at least three run_n_steps calls.",
         "C11" => "at least three run_n_steps calls were made or at least one host call was deferred.",
         "C08" | "C09" => "a task was spawned and a host call was deferred, a collector phase overlapped execution, or execution was cut into at least three calls.",
